@@ -22,6 +22,10 @@ def expr(e, branch=False):
     t = e["t"]
     if t == "num":
         v = e["v"]
+        if e.get("bad"):
+            if not set(str(v)) & set("89"):
+                raise MachineryError(f"BadNum({v}) has no digit 8 or 9")
+            return "%d" % v
         return ("-%o" % -v) if v < 0 else ("%o" % v)
     if t == "sym":
         n = e["n"]
